@@ -185,47 +185,53 @@ example :
 
 /-! ### P0: the retained search position -/
 
-/-- **searchPos_irrelevant (PREAMBLE).** After `preamble_re` failed on buffer `b` the decoder keeps
-`_search_position = max(0, len(b) - len(boundary) - SEARCH_EXTRA_LENGTH)`. For every continuation
-`c`, searching `b ++ c` from that position finds the same first delimiter as searching from 0 —
-under the explicit bound `PadOk`: the first delimiter, if it is not the closing one, is at most
-`len(boundary) + SEARCH_EXTRA_LENGTH` bytes long (line breaks and transport padding included). -/
-theorem searchPos_irrelevant {bnd b c : Bytes} (hnone : searchDelim bnd true b = none)
-    (hpad : PadOk bnd (b ++ c)) :
-    searchDelimFrom bnd true (b.length - bnd.length - searchExtra) (b ++ c) =
-      searchDelimFrom bnd true 0 (b ++ c) := by
-  rw [searchPos_irrelevant_lemma hnone hpad, searchDelimFrom_eq_shift]; simp
+/-- **searchPos_irrelevant (PREAMBLE), no padding bound.** When `preamble_re` fails on buffer `b`
+searched from `sp`, the decoder (as repaired for F01c, f636614) keeps
+`_search_position = nextSearchPos`: `max(0, len(b) - len(boundary) - SEARCH_EXTRA_LENGTH)`, lowered to
+two bytes before the last `--boundary` found by `b.rfind(b"--" + boundary, sp)`. If no continuation
+of the buffer can have a match that starts before the old position (`NoEarly`, true of position 0),
+then no continuation can have one that starts before the new position, and for **every** continuation
+`c` — any amount of transport padding on the first delimiter included — searching `b ++ c` from the
+new position finds the same first delimiter as searching from 0. No `PadOk` bound any more. -/
+theorem searchPos_irrelevant {bnd b : Bytes} {sp : Nat} (hsp : NoEarly bnd sp b)
+    (hnone : searchDelimFrom bnd true sp b = none) (c : Bytes) :
+    NoEarly bnd (nextSearchPos bnd b sp) b ∧
+    searchDelimFrom bnd true (nextSearchPos bnd b sp) (b ++ c) = searchDelimFrom bnd true 0 (b ++ c) := by
+  have hn : searchDelim bnd true b = none := by rw [← hsp.search]; exact hnone
+  have h1 := noEarly_next hsp hn
+  refine ⟨h1, ?_⟩
+  rw [(h1.append c).search, searchDelimFrom_eq_shift]; simp
 
-/-- non-vacuity: four bytes of padding on the first delimiter are within the bound -/
+/-- the same over a whole run: however the bytes searched so far arrived (`chunks`, `preamble_re`
+failing after each of them), the position the decoder has kept (`spAfter`) hides nothing: for every
+continuation the search from it finds what a search from 0 finds -/
+theorem searchPos_irrelevant_run {bnd : Bytes} (chunks : List Bytes) (c : Bytes)
+    (hnone : searchDelim bnd true chunks.flatten = none) :
+    searchDelimFrom bnd true (spAfter bnd chunks [] 0) (chunks.flatten ++ c) =
+      searchDelimFrom bnd true 0 (chunks.flatten ++ c) := by
+  have h := spAfter_noEarly chunks [] 0 (NoEarly.zero bnd []) (by simpa using hnone)
+  simp only [List.nil_append] at h
+  rw [(h.append c).search, searchDelimFrom_eq_shift]; simp
+
+/-- non-vacuity and the F01c input: `--bound` + 20 SP + CRLF, first chunk ending inside the padding.
+The old rule would resume at 20 - 5 - 8 = 7 and miss the delimiter; the repaired rule keeps position 0
+(two bytes before the pending `--bound`, cut off at 0), the delimiter is found, and the two-chunk decode
+of the finding's body yields the field like the single-shot decode -/
 example :
-    searchDelim (str "bound") true (str "--bound  ") = none ∧
-    PadOk (str "bound") (str "--bound  " ++ str "  \r\nContent-Disposition: x") := by
-  decide +kernel
-
-/-- **F01c: the bound is necessary.** `--bound` + 20 SP + CRLF, first chunk ending inside the
-padding: the search resumed at the retained position misses the delimiter that a search from 0
-finds. (Known finding: RFC 2046 transport padding on the first delimiter longer than the retained
-tail.) -/
-theorem searchPos_irrelevant_full_false :
-    ¬ (∀ bnd b c : Bytes, searchDelim bnd true b = none →
-        searchDelimFrom bnd true (b.length - bnd.length - searchExtra) (b ++ c) =
-          searchDelimFrom bnd true 0 (b ++ c)) := by
-  intro h
-  have := h (str "bound") (str "--bound             ") (str "       \r\n") (by decide +kernel)
-  revert this
-  decide +kernel
-
-/-- F01c at the level of the whole decoder model: the two-chunk decode of the finding's body yields
-no part, the single-shot decode yields the field. -/
-theorem decode_chunk_independent_full_false :
-    ¬ (∀ (bnd : Bytes) (chunks : List Bytes),
-        partsOf (decodeChunks bnd none none chunks).events =
-          partsOf (decodeChunks bnd none none [chunks.flatten]).events) := by
-  intro h
-  have := h (str "bound")
-    [str "--bound             ",
-     str "       \r\nContent-Disposition: form-data; name=\"a\"\r\n\r\nv\r\n--bound--\r\n"]
-  revert this
+    searchDelim (str "bound") true (str "--bound             ") = none ∧
+    nextSearchPos (str "bound") (str "--bound             ") 0 = 0 ∧
+    nextSearchPos (str "bound") (str "xxxxxxxxxxxxxxxxxxxxxxxxxxxxxx") 0 = 17 ∧
+    nextSearchPos (str "bound") (str "xxxxxxxxxx\r\n--bound         ") 0 = 10 ∧
+    spAfter (str "bound") [str "xxxxxxxxxx\r", str "\n--bound   ", str "      "] [] 0 = 10 ∧
+    searchDelimFrom (str "bound") true 0 (str "--bound             " ++ str "       \r\n") = some (0, 29, false) ∧
+    partsOf (decodeChunks (str "bound") none none
+      [str "--bound             ",
+       str "       \r\nContent-Disposition: form-data; name=\"a\"\r\n\r\nv\r\n--bound--\r\n"]).events =
+    partsOf (decodeChunks (str "bound") none none
+      [str "--bound                    \r\nContent-Disposition: form-data; name=\"a\"\r\n\r\nv\r\n--bound--\r\n"]).events ∧
+    (partsOf (decodeChunks (str "bound") none none
+      [str "--bound             ",
+       str "       \r\nContent-Disposition: form-data; name=\"a\"\r\n\r\nv\r\n--bound--\r\n"]).events).length = 1 := by
   decide +kernel
 
 /-- **searchPos_irrelevant (PART).** The blank-line search resumed at
@@ -425,6 +431,9 @@ predicate `RawOk nl bnd`:
 * the decoder makes a Field / File event of it (`headEvent`, i.e. `_parse_headers` succeeds, a
   Content-Disposition header is present and `parse_options_header` accepts it — the name may even be
   missing);
+* the transport padding (`pad`) that follows `--boundary` on the delimiter line in front of the part
+  is horizontal white space — **any amount**, on the first delimiter line (the F01c input class,
+  repaired by f636614) as on the later ones;
 * the payload has no line starting with `--boundary` and is free of the other newline kind.
 
 For every boundary without CR / LF, every admissible preamble (`PreFreeR`), every list of such parts,
@@ -480,27 +489,30 @@ theorem preOk_preFreeR {nl : Nl} {bnd : Bytes} (hb : BoundaryOk bnd) (ep pr : By
 continuation line, white space around a name and a value, LF / CR / CRLF line breaks mixed inside the
 block and Content-Type after Content-Disposition is admissible under all three conventions, and the
 decoder reports the expected part; blocks that start with white space, contain a blank line, lack
-Content-Disposition or end in CR (which would merge with a CRLF / CR blank line) are not -/
+Content-Disposition or end in CR (which would merge with a CRLF / CR blank line) are not; 40 bytes of
+transport padding on the delimiter line are admissible, padding that is not white space is not -/
 example :
-    let r : RawPart := ⟨str "content-disposition:form-data;\r\n\tname=a\nX-Foo :  bar \rContent-Type: text/plain", str "v"⟩
+    let r : RawPart := ⟨str "content-disposition:form-data;\r\n\tname=a\nX-Foo :  bar \rContent-Type: text/plain", str "v", str " \t \x0b                                   "⟩
     RawOk .crlf (str "b") r ∧ RawOk .lf (str "b") r ∧ RawOk .cr (str "b") r ∧
     r.out = ⟨false, some ['a'], none,
       [("content-disposition".toList, "form-data; name=a".toList), ("X-Foo".toList, "bar".toList),
        ("Content-Type".toList, "text/plain".toList)], str "v"⟩ ∧
-    RawOk .crlf (str "b") ⟨str "Content-Disposition: form-data", []⟩ ∧
-    ¬ RawOk .crlf (str "b") ⟨str " Content-Disposition: form-data; name=a", []⟩ ∧
-    ¬ RawOk .crlf (str "b") ⟨str "Content-Disposition: form-data; name=a\r\n\r\nX: y", []⟩ ∧
-    ¬ RawOk .crlf (str "b") ⟨str "Content-Type: text/plain", []⟩ ∧
-    ¬ RawOk .cr (str "b") ⟨str "Content-Disposition: form-data; name=a\r", []⟩ := by
+    RawOk .crlf (str "b") ⟨str "Content-Disposition: form-data", [], []⟩ ∧
+    ¬ RawOk .crlf (str "b") ⟨str " Content-Disposition: form-data; name=a", [], []⟩ ∧
+    ¬ RawOk .crlf (str "b") ⟨str "Content-Disposition: form-data; name=a\r\n\r\nX: y", [], []⟩ ∧
+    ¬ RawOk .crlf (str "b") ⟨str "Content-Type: text/plain", [], []⟩ ∧
+    ¬ RawOk .cr (str "b") ⟨str "Content-Disposition: form-data; name=a\r", [], []⟩ ∧
+    ¬ RawOk .crlf (str "b") ⟨str "Content-Disposition: form-data; name=a", [], str " x"⟩ := by
   decide +kernel
 
 /-- sanity: such a body through the form parser, two bytes at a time, with a preamble that contains a
-near-delimiter -/
+near-delimiter and the F01c amount of transport padding (20 SP) on the first delimiter line, some on
+the second -/
 example :
     (formParse (str "b") none none 2 []
       (bodyOfR .crlf (str "b") (str "\r\n") (str "x --bz") true
-        [⟨str "content-disposition:form-data;\r\n\tname=a\nX-Foo :  bar \rContent-Type: text/plain", str "v"⟩,
-         ⟨str "Content-Disposition: form-data; name=f; filename=\"q\"", [0, 255]⟩])).toOption =
+        [⟨str "content-disposition:form-data;\r\n\tname=a\nX-Foo :  bar \rContent-Type: text/plain", str "v", str "                    "⟩,
+         ⟨str "Content-Disposition: form-data; name=f; filename=\"q\"", [0, 255], str " \t"⟩])).toOption =
     some ([(some ['a'], ['v'])],
           [⟨some ['f'], ['q'], [("Content-Disposition".toList, "form-data; name=f; filename=\"q\"".toList)],
             [0, 255]⟩]) := by
@@ -510,10 +522,9 @@ example :
 OPEN (P1) — stated, not proved:
 
 -- OPEN: decode_chunk_independent for the rest of the property's grammar: bodies that mix line-break
--- conventions between delimiter lines, header blocks that start with white space, and transport
--- padding after `--boundary` on delimiter lines between parts (the first delimiter's padding is F01c).
--- The unrestricted statement is false (`decode_chunk_independent_full_false`, finding F01c: transport
--- padding on the first delimiter).
+-- conventions between delimiter lines, and header blocks that start with white space.
+-- (F01c is repaired: `searchPos_irrelevant` carries no bound and the whole-run theorems allow any
+-- amount of transport padding on every delimiter line, `RawPart.pad`.)
 
 -- OPEN: drain_split — for every decoder configuration reachable from `mkDecoder` and bytes c₁ c₂,
 --   feed c₁ ; drain ; feed c₂ ; drain  ≈  feed (c₁ ++ c₂) ; drain
